@@ -298,7 +298,7 @@ Record legal_facts (i : input) (kn : string) : Prop := mk_lf {
   lf_res : forall e, In e (i_meta i) -> has_prefix "io.cncf.notary" (fst e) = false;
   lf_target : match i_target i with
               | TOCI d => json_safe (d_mt d) = true /\ json_safe (d_digest d) = true
-              | TBlob b mt mt_ok => mt <> "" /\ mt_ok = true /\ json_safe mt = true
+              | TBlob b mt mt_ok => b_readerr b = false /\ mt <> "" /\ mt_ok = true /\ json_safe mt = true
                                     /\ json_safe (b_d256 b) = true /\ json_safe (b_d384 b) = true
                                     /\ json_safe (b_d512 b) = true
               end }.
@@ -327,7 +327,7 @@ Proof.
   - destruct (i_target i) as [d|b mt mt_ok].
     + apply andb_split in L. tauto.
     + repeat (apply andb_split in L; let H' := fresh "T" in destruct L as [L H']).
-      apply negb_true_iff in L. repeat split; try assumption.
+      apply negb_true_iff in L. apply negb_true_iff in T4. repeat split; try assumption.
       intros ->. discriminate.
 Qed.
 
@@ -435,7 +435,7 @@ Section Generic.
     intros i kn an F. destruct F. unfold expected_signed in *.
     destruct (i_target i) as [d|b mt mt_ok]; unfold json_rt; simpl in *.
     - destruct lf_target0 as [S1 S2]. rewrite (json_safe_eq _ S1), (json_safe_eq _ S2), (rt_map_safe _ lf_safe0). reflexivity.
-    - destruct lf_target0 as (_ & _ & S1 & S2 & S3 & S4).
+    - destruct lf_target0 as (_ & _ & _ & S1 & S2 & S3 & S4).
       rewrite (json_safe_eq _ S1), (blob_digest_safe _ _ S2 S3 S4), (rt_map_safe _ lf_safe0). reflexivity.
   Qed.
 
@@ -527,7 +527,7 @@ Section Generic.
           rewrite (plugin_envelope_ok i kn a D an F' Ta Tne HD HA) by (rewrite Ht; assumption).
           reflexivity.
     - (* blob *)
-      destruct lf_target0 as (Hmt & Hok & _). subst mt_ok.
+      destruct lf_target0 as (Hre & Hmt & Hok & _). subst mt_ok.
       replace (mt =? "") with false by (symmetry; apply String.eqb_neq; assumption).
       cbn [orb negb].
       assert (HB : blob_descriptor b mt (i_meta i) an
@@ -539,11 +539,11 @@ Section Generic.
       assert (HS : d_size D = b_size b) by reflexivity.
       unfold signer_sign_blob.
       destruct (i_signer i) as [|capsig capenv describe] eqn:Hs.
-      + rewrite Ta, Ts, HB.
+      + rewrite Ta, Ts, Hre, HB.
         rewrite (generic_sign_ok i (i_ks i) a D) by (try assumption; rewrite HS; assumption).
         rewrite HD. reflexivity.
       + destruct lf_signer0 as [Hcap Hdesc]. subst describe.
-        rewrite Td, Ta, Ts, HB.
+        rewrite Td, Ta, Ts, Hre, HB.
         destruct capsig.
         * unfold plugin_generate.
           rewrite Ta. rewrite (core_sign_ok i a (sanitize D)) by (try assumption; exact Hj).
@@ -621,6 +621,10 @@ Section Generic.
       replace ((i_format i =? mt_jws) || (i_format i =? mt_cose)) with true
         by (destruct lf_fmt0 as [E|E]; rewrite E; reflexivity).
       cbn [negb].
+      destruct (b_readerr vb) eqn:Hvre.
+      { cbn [negb andb]. rewrite andb_false_r.
+        destruct (negb (vmt =? "") && negb vmt_ok); destruct (i_trusted i); cbn; repeat split; discriminate. }
+      cbn [negb andb].
       assert (R : submap (i_vmeta i) (d_anns signed) = true ->
                   existsb (fun e => reserved (fst e) || has_key (fst e) []) (i_vmeta i) = false).
       { intros Hs. apply (vmeta_not_reserved _ (i_meta i)); [|assumption].
@@ -807,7 +811,7 @@ Qed.
 Lemma roundtrip_blob : forall i b mt ok vb vmt vok kn a hn an,
   wf i = true -> i_target i = TBlob b mt ok -> i_vtarget i = TBlob vb vmt vok -> i_trusted i = true ->
   spec_row (i_ks i) spec_table = Some (kn, a, hn, an) ->
-  blob_digest vb an = blob_digest b an -> b_size vb = b_size b ->
+  b_readerr vb = false -> blob_digest vb an = blob_digest b an -> b_size vb = b_size b ->
   (vmt = "" \/ (vmt = mt /\ vok = true)) ->
   submap (i_vmeta i) (i_meta i) = true ->
   let signed := mk_descr mt (blob_digest b an) (b_size b) [] (i_meta i) "" "" "" in
@@ -817,13 +821,13 @@ Lemma roundtrip_blob : forall i b mt ok vb vmt vok kn a hn an,
   exists s, o_env o = Some s /\ s_alg s = a /\ s_payload s = Some signed /\ s_top s = ["targetArtifact"] /\
             s_tgt s = (match i_meta i with [] => [] | _ => ["annotations"] end) ++ ["digest"; "mediaType"; "size"].
 Proof.
-  intros i b mt ok vb vmt vok kn a hn an Hwf Ht Hv Htr Hrow Hdg Hsz Hvmt Hsub signed o.
+  intros i b mt ok vb vmt vok kn a hn an Hwf Ht Hv Htr Hrow Hvre Hdg Hsz Hvmt Hsub signed o.
   pose proof (model_closed true i kn a hn an Hwf Hrow) as C. cbv zeta in C.
   pose proof (model_verify true i kn a hn an Hwf Hrow) as V. cbv zeta in V.
   assert (Hs : expected_signed i an = signed) by (unfold expected_signed; rewrite Ht; reflexivity).
   assert (P : positive i (expected_signed i an) an = true).
   { rewrite Hs. unfold positive. rewrite Htr, Ht, Hv. unfold signed. cbn [d_anns d_digest d_size d_mt]. rewrite Hsub.
-    rewrite Hdg, Hsz, Z.eqb_refl, str_eqb_refl.
+    rewrite Hvre, Hdg, Hsz, Z.eqb_refl, str_eqb_refl.
     destruct Hvmt as [->|[-> ->]]; [reflexivity|]. rewrite str_eqb_refl, orb_true_r. reflexivity. }
   rewrite P in V. subst o. unfold model. rewrite C, V.
   cbn [o_sign o_shash o_verify o_vhash o_ret o_meta o_env v_code v_hash v_ret v_meta].
@@ -918,7 +922,7 @@ Definition ex_oci (fmt : string) (sg : signer) (size : Z) : input :=
   mk_input (TOCI (ex_desc size)) sg (mk_ks KRSA 3072) fmt [("buildId", "42")] (3600 * second) ""
            1700000000123456789 ex_consts true (TOCI (ex_desc size)) [("buildId", "42")].
 
-Definition ex_blob_b : blob := mk_blob 11 "sha256:aa" "sha384:bb" "sha512:cc".
+Definition ex_blob_b : blob := mk_blob 11 "sha256:aa" "sha384:bb" "sha512:cc" false.
 
 Definition ex_blob (meta : amap) : input :=
   mk_input (TBlob ex_blob_b "text/plain" true) (Plug true false "EC-521") (mk_ks KEC 521) mt_cose meta (86400 * second)
